@@ -166,8 +166,11 @@ def extract_tuples(out, tag_regex):
     from .tlaval import parse_value
 
     found = []
+    last_end = -1
     for m in re.finditer(r'<<\s*"(?:%s)' % tag_regex, out):
         j = m.start()
+        if j < last_end:  # a nested tuple of a verdict already extracted (e.g. an option called "SRC" inside an "S" verdict)
+            continue
         depth, k, n = 0, j, len(out)
         instr = False
         while k < n:
@@ -195,6 +198,7 @@ def extract_tuples(out, tag_regex):
                     break
                 continue
             k += 1
+        last_end = k
         try:
             found.append(parse_value(out[j:k]))
         except Exception as e:  # a tuple we cannot read must not be dropped silently
